@@ -130,7 +130,7 @@ def corruptions(data, rows, tier, smallest):
     return out
 
 
-PRIORS = ["empty", "holds-recorded-same", "holds-unrecorded-dir", "holds-unrelated", "stale-staging", "stale-staging-other"]
+PRIORS = ["empty", "holds-recorded-same", "holds-unrecorded-dir", "holds-unrelated", "stale-staging", "stale-staging-other", "format1-index"]
 
 
 def make_prior(prior, rows, other):
@@ -150,6 +150,15 @@ def make_prior(prior, rows, other):
     elif prior == "holds-unrelated":
         driver.make_index(os.path.join(co, "version_index.sqlite"), [("//:e1", 999, None, 0), ("//:zz", first[1], "c" * 40, 1)])
         driver.write_tree(co, {"e1.task.999/keep.txt": "keep\n", "zz.task.%d/keep.txt" % first[1]: "keep2\n"})
+    elif prior == "format1-index":
+        # a project last used with Conductor <= 0.4: the restoring process upgrades the index first
+        c = sqlite3.connect(os.path.join(co, "version_index.sqlite"))
+        c.execute("PRAGMA user_version = 1")
+        c.execute("CREATE TABLE version_index (task_identifier TEXT NOT NULL, timestamp INTEGER NOT NULL, git_commit TEXT NOT NULL, PRIMARY KEY (task_identifier, timestamp))")
+        c.executemany("INSERT INTO version_index VALUES (?,?,?)", [("//:e1", 999, "x"), (first[0], first[1] + 7, "y")])
+        c.commit()
+        c.close()
+        driver.write_tree(co, {"e1.task.999/keep.txt": "keep\n", "%s/keep.txt" % vdir((first[0], first[1] + 7)): "keep3\n"})
     elif prior in ("stale-staging", "stale-staging-other"):
         driver.make_index(os.path.join(co, "version_index.sqlite"), [("//:e1", 999, None, 0)])
         driver.write_tree(co, {"e1.task.999/keep.txt": "keep\n"})
@@ -234,7 +243,7 @@ def run_item(item, tier):
             k = "restore_succeeded" if success else "restore_failed"
             res["counters"][k] = res["counters"].get(k, 0) + 1
             oracle(root, rows_before, recorded_before, arows, adirs, success, viol, art, "corrupt:" + cname.split("@")[0].split(":")[0])
-            if cname == "none" and item["prior"] in ("empty", "holds-unrelated", "stale-staging", "stale-staging-other") and not success:
+            if cname == "none" and item["prior"] in ("empty", "holds-unrelated", "stale-staging", "stale-staging-other", "format1-index") and not success:
                 viol("valid-restore-failed", "restoring a valid archive into prior state %s failed: %r %s" % (item["prior"], r.exc, r.err_text[:200]), art)
         res["sample"] = {"archive_rows": arows, "prior": item["prior"], "corruptions": "index/dir removed, truncations, garbage/format-1 index, ..."}
     else:
